@@ -8,44 +8,6 @@ verus! {
 /*@R9: const EPSILON_SERVICE: Service = @*/exec const EPSILON_SERVICE: Service ensures EPSILON_SERVICE.val == 1 {/*@.*/ Service::in_interval(EPSILON)/*@R9: ; @*/ }/*@.*/
 //@end
 
-//@item src/ros2/rr.rs :: type PolledCallbackPriority
-pub type PolledCallbackPriority = i32;
-//@end
-
-//@item src/ros2/rr.rs :: fn is_higher_callback_priority_than
-pub fn is_higher_callback_priority_than(
-    a: PolledCallbackPriority,
-    b: PolledCallbackPriority,
-) -> /*+*/(r: /*-*/bool/*+*/) ensures r == (a < b)/*-*/ {
-    a < b
-}
-//@end
-
-//@item src/ros2/rr.rs :: enum CallbackType
-/*+*/#[derive(Debug, Clone, Copy, PartialEq, Eq)] /*-*/pub enum CallbackType {
-    /// A timer callback.
-    Timer,
-    /// An event source pseudo-callback.
-    EventSource,
-    /// A polling-point-based callback for which the priority is not known.
-    PolledUnknownPrio,
-    /// A polling-point-based callback with known priority.
-    Polled(PolledCallbackPriority),
-}
-//@end
-
-impl CallbackType {
-//@item src/ros2/rr.rs :: impl CallbackType / fn is_pp
-    pub fn is_pp(&self) -> /*+*/(r: /*-*/bool/*+*/)
-        ensures r == (match *self { CallbackType::PolledUnknownPrio | CallbackType::Polled(_) => true, _ => false })/*-*/ {
-        matches!(
-            self,
-            CallbackType::PolledUnknownPrio | CallbackType::Polled(_)
-        )
-    }
-//@end
-}
-
 //@item src/ros2/rr.rs :: struct Callback
 pub struct Callback<'a, 'b, AB: ArrivalBound + ?Sized, CM: JobCostModel + ?Sized> {
     /*+*/pub /*-*/response_time_bound: Duration,
@@ -55,17 +17,6 @@ pub struct Callback<'a, 'b, AB: ArrivalBound + ?Sized, CM: JobCostModel + ?Sized
 }
 //@end
 
-// ---- Definitions 1-3 of the RTSS'21 paper, as spec functions
-pub open spec fn direct_n(kind: CallbackType, interfered: CallbackType, arrived: int, npp: int) -> int {
-    match kind {
-        CallbackType::Timer | CallbackType::EventSource => arrived,
-        CallbackType::PolledUnknownPrio => imin(arrived, npp + 1),
-        CallbackType::Polled(p) => match interfered {
-            CallbackType::Polled(q) => imin(arrived, npp + if p < q { 1int } else { 0int }),
-            _ => imin(arrived, npp + 1),
-        },
-    }
-}
 impl<'a, 'b, AB: ArrivalBound + ?Sized, CM: JobCostModel + ?Sized> Callback<'a, 'b, AB, CM> {
     pub open spec fn arrived(&self, delta: int) -> int { self.arrival_bound.na(sat(delta + self.response_time_bound.v() - 1)) }
     /// Def. 1: direct interference bound
@@ -201,11 +152,6 @@ impl<'a, 'b, AB: ArrivalBound + ?Sized, CM: JobCostModel + ?Sized> Callback<'a, 
 //@end
 }
 
-// ---- pointer identity (R8): ASSUMED to be determined by the values (the end-of-chain callback occurs once in the workload)
-pub uninterp spec fn same_obj<T>(a: &T, b: &T) -> bool;
-#[verifier::external_body]
-pub fn vf_ptr_eq<T>(a: &T, b: &T) -> (r: bool) ensures r == same_obj(a, b) { std::ptr::eq(a, b) }
-
 // ---- Theorem 2, evaluated naively
 pub open spec fn ppb_at<AB: ArrivalBound + ?Sized, CM: JobCostModel + ?Sized>(subchain: Seq<&Callback<AB, CM>>) -> spec_fn(int) -> int { |i: int| subchain[i].ppb() }
 pub open spec fn npp_spec<AB: ArrivalBound + ?Sized, CM: JobCostModel + ?Sized>(subchain: Seq<&Callback<AB, CM>>) -> int { sum_idx(subchain.len() as int, ppb_at(subchain)) }
@@ -231,6 +177,12 @@ pub open spec fn rr_spec<SBF: SupplyBound + ?Sized, AB: ArrivalBound + ?Sized, C
         }
     }
 }
+pub open spec fn rr_dmax<AB: ArrivalBound + ?Sized, CM: JobCostModel + ?Sized>(workload: Seq<Callback<AB, CM>>, subchain: Seq<&Callback<AB, CM>>, limit: int) -> int {
+    let eoc = subchain[subchain.len() - 1];
+    let a = limit + eoc.cost_model.cost(eoc.arrival_bound.na(limit + eoc.response_time_bound.v()) + 1);
+    let b = w_s(workload, eoc, npp_spec(subchain))(limit);
+    if a >= b { a } else { b }
+}
 pub open spec fn rr_pre<SBF: SupplyBound + ?Sized, AB: ArrivalBound + ?Sized, CM: JobCostModel + ?Sized>(
     supply: &SBF, workload: Seq<Callback<AB, CM>>, subchain: Seq<&Callback<AB, CM>>, limit: int) -> bool
 {
@@ -240,8 +192,9 @@ pub open spec fn rr_pre<SBF: SupplyBound + ?Sized, AB: ArrivalBound + ?Sized, CM
     &&& forall |i: int| 0 <= i < subchain.len() ==> (#[trigger] subchain[i]).ok(limit)
     &&& npp_spec(subchain) < usize::MAX
     &&& forall |x: int| 0 <= x <= limit ==> #[trigger] w_s(workload, subchain[subchain.len() - 1], npp_spec(subchain))(x) <= u64::MAX
-    // magnitude envelope of the supply: every demand that can occur has a service time within u64 and within ps_ok
-    &&& forall |d: int| 0 <= d <= 2 * u64::MAX ==> #[trigger] supply.st(d) <= u64::MAX && supply.ps_ok(supply.st(d))
+    // magnitude envelope of the supply: every demand that can occur (at most limit + the largest cost of the end of the
+    // chain, resp. the start-time demand) has a service time within u64 and within ps_ok
+    &&& forall |d: int| 0 <= d <= rr_dmax(workload, subchain, limit) ==> #[trigger] supply.st(d) <= u64::MAX && supply.ps_ok(supply.st(d))
     &&& forall |t: int| 0 <= t <= limit ==> #[trigger] supply.ps_ok(t)
     &&& limit + subchain[subchain.len() - 1].cost_model.cost(subchain[subchain.len() - 1].arrival_bound.na(limit + subchain[subchain.len() - 1].response_time_bound.v()) + 1) <= u64::MAX
 }
